@@ -138,8 +138,40 @@ pub fn scenarios(quick: bool) -> Vec<Scenario> {
     v
 }
 
+/// Free-running body of a scenario for the race-detector side pass: real threads, no scheduler, pool none or rayon.
+fn tsan_child(rest: &[String]) -> ! {
+    let (item, callers, fault, pool) = (&rest[1], &rest[2], &rest[3], &rest[4]);
+    let callers: Vec<usize> = callers.split(',').map(|x| x.parse().unwrap()).collect();
+    let items = corpus();
+    let bytes = &items.iter().find(|i| &i.name == item).unwrap_or_else(|| crate::explore::machinery_failure(&format!("no corpus item {item}"))).bytes;
+    let tracker = AllocTracker::with_limit(1 << 30);
+    let pool = match pool.parse::<usize>().unwrap() {
+        0 => JxlThreadPool::none(),
+        n => JxlThreadPool::rayon(Some(n)),
+    };
+    let img = JxlImage::builder().pool(pool).alloc_tracker(tracker.clone()).read(&bytes[..]).expect("scenario stream decodes");
+    if let Ok(k) = fault.parse::<usize>() {
+        let base = tracker.verif_attempts();
+        tracker.verif_fail_at(Some(base + k), false);
+    }
+    let img = Arc::new(img);
+    let hs: Vec<_> = callers
+        .iter()
+        .map(|&k| {
+            let img = Arc::clone(&img);
+            std::thread::spawn(move || render_hash(&img, k).is_ok())
+        })
+        .collect();
+    let r: Vec<bool> = hs.into_iter().map(|h| h.join().unwrap_or(false)).collect();
+    println!("{r:?}");
+    std::process::exit(0)
+}
+
 pub fn main(args: &crate::Args) {
     crate::util::install_panic_hook();
+    if args.rest.first().map(|s| s == "--tsan-child").unwrap_or(false) {
+        tsan_child(&args.rest);
+    }
     install_router();
     if let Some(p) = &args.replay {
         replay(p);
@@ -233,6 +265,22 @@ pub fn main(args: &crate::Args) {
         }
     }
     rep.traces_validated = rep.evaluations;
+    // race-detector side pass: the same scenarios free-running (real threads, no scheduler), without a pool and with a
+    // 2-thread rayon pool
+    {
+        let mut jobs = vec![];
+        for sc in &scs {
+            for pool in [0usize, 2] {
+                for _ in 0..(if quick { 1 } else { 3 }) {
+                    jobs.push((
+                        format!("scenario {} with {}", sc.name, if pool == 0 { "no pool".to_string() } else { format!("a rayon pool of {pool} threads") }),
+                        vec!["C20".to_string(), "--tsan-child".into(), sc.item.clone(), sc.callers.iter().map(|c| c.to_string()).collect::<Vec<_>>().join(","), sc.fault.map(|f| f.to_string()).unwrap_or("-".into()), pool.to_string()],
+                    ));
+                }
+            }
+        }
+        crate::tsan::raise(&mut rep, crate::tsan::pass(&jobs, "every scenario's caller threads on one shared image, without a pool and with a 2-thread rayon pool"));
+    }
     rep.rule = format!("{} scenarios (images: single frame, ReferenceOnly+blended keyframe, 3-keyframe animation sharing reference slots, layered chain with two keyframes; 2 or 3 caller threads on the same or different keyframes; with and without one injected allocation failure at the k-th tracked allocation) x ALL schedules within {bound} deviations from the default schedule (continue the running thread, else lowest id) at every lock / condvar-wait scheduling point of the render-handle protocol; executions run to completion on the real code under the cooperative scheduler; oracle: no deadlock, every caller returns, every Ok equals the sequential render bit for bit, errors only with an injected fault, no two concurrent executions and no repeated execution of a frame's render operation.", scs.len());
     rep.sample(json!({"scenario": scs[3].name, "callers": scs[3].callers, "max_scheduling_points": outs[3].max_points, "schedules": outs[3].runs}));
     rep.sample(json!({"scenario": scs[scs.len() - 1].name, "callers": scs[scs.len() - 1].callers, "fault": scs[scs.len() - 1].fault, "schedules": outs[scs.len() - 1].runs}));
@@ -240,7 +288,7 @@ pub fn main(args: &crate::Args) {
     rep.extra.insert("schedules_per_scenario".into(), json!(scs.iter().zip(&outs).map(|(s, o)| (s.name.clone(), o.runs)).collect::<std::collections::BTreeMap<_, _>>()));
     rep.exhaustive = true;
     rep.assumptions = vec![
-        "scheduling points are the Mutex/Condvar operations of the render-handle protocol (state.rs, image.rs, cached colour transform); data races not crossing such a point and weak-memory effects are outside this check".into(),
+        "scheduling points are the Mutex/Condvar operations of the render-handle protocol (state.rs, image.rs, cached colour transform); data races not crossing such a point are looked for by the separate free-running ThreadSanitizer pass over the same scenarios (sampling over schedules, supporting); weak-memory effects are outside this check".into(),
         "pool = none: background reference renders run inline; pool task orders are explored by C07".into(),
         "states = (vector of handle protocol states, per-thread scheduler status) sampled at every scheduling point".into(),
     ];
@@ -250,6 +298,9 @@ pub fn main(args: &crate::Args) {
 fn replay(path: &str) -> ! {
     let s = std::fs::read_to_string(path).unwrap_or_else(|e| crate::explore::machinery_failure(&format!("{path}: {e}")));
     let v: serde_json::Value = serde_json::from_str(&s).unwrap();
+    if v["family"] == "tsan" {
+        crate::tsan::replay("C20", path, &v);
+    }
     let sj = &v["scenario"];
     let sc = Scenario {
         name: sj["name"].as_str().unwrap().into(),
